@@ -115,13 +115,92 @@ Theorem walk1_terminates (todo0 : list Z) fuel : NoDup todo0 -> (forall v, In v 
   (sumw nodes <= fuel)%nat -> finished1 (run1 adj lcount fuel (init1 todo0)) = true.
 Proof.
   intros Nd0 Hb Hf. apply run1_finishes.
-  - split; cbn [init1 w_todo w_cur]; [intros v Hv; apply Hb; apply in_rev; auto|intros; discriminate].
-  - unfold mu, init1. cbn [w_nh w_todo w_cur curw].
+  - unfold init1. rewrite frev_rev. split; cbn [w_todo w_cur]; [intros v Hv; apply Hb; apply in_rev; auto|intros; discriminate].
+  - unfold mu, init1. rewrite frev_rev. cbn [w_nh w_todo w_cur curw].
     set (nh0 := fold_left (fun m v => zset m v true) todo0 zempty).
     pose proof (sumw_partition (getb nh0) nodes) as P. fold (unmarked nh0) in P.
     assert (L : (sumw (rev todo0) <= sumw (filter (getb nh0) nodes))%nat).
     { apply sumw_incl; [apply NoDup_rev; auto|]. intros v Hv. apply in_rev in Hv. apply filter_In. split; [auto|].
       unfold nh0. apply fold_set_true_in. left; auto. }
+    lia.
+Qed.
+
+
+(* ---------------------------------------------------------------- the second walk *)
+Definition unlabelled (anh : zmap Z) : list Z := filter (fun v => getz anh v =? 0) nodes.
+Definition curw2 (c : option (Z * list Z)) : nat :=
+  match c with Some (_, rest) => S (length rest) | None => O end.
+Definition mu2 (s : vst) : nat := (sumw (unlabelled (v_anh s)) + sumw (v_todo s) + curw2 (v_cur s))%nat.
+
+Definition scope2 (s : vst) : Prop :=
+  (forall v, In v (v_todo s) -> In v nodes /\ getz (v_anh s) v <> 0) /\
+  (forall ii rest, v_cur s = Some (ii, rest) -> getz (v_anh s) ii <> 0 /\ forall x, In x rest -> In x nodes).
+
+Lemma sumw_label (l : list Z) anh jj k : NoDup l -> In jj l -> getz anh jj = 0 -> k <> 0 ->
+  (sumw (filter (fun v => (getz (zset anh jj k) v =? 0)%Z) l) + wt jj = sumw (filter (fun v => (getz anh v =? 0)%Z) l))%nat.
+Proof.
+  intros Nd. induction l as [|a l IH]; intros Hin Hj Hk; [destruct Hin|].
+  inversion Nd as [|x y Na Nd']; subst x y. cbn [filter].
+  destruct (Z.eq_dec a jj) as [->|N].
+  - rewrite getz_set_same, Hj. destruct (k =? 0) eqn:K; [lia|]. cbn [Z.eqb]. rewrite sumw_cons.
+    assert (E : filter (fun v => getz (zset anh jj k) v =? 0) l = filter (fun v => getz anh v =? 0) l).
+    { apply filter_ext_in. intros x Hx. rewrite getz_set_other; [reflexivity|]. intros ->. contradiction. }
+    rewrite E. apply Nat.add_comm.
+  - rewrite getz_set_other by auto. destruct Hin as [Hin|Hin]; [congruence|].
+    specialize (IH Nd' Hin Hj Hk). destruct (getz anh a =? 0); rewrite ?sumw_cons; lia.
+Qed.
+
+Lemma step2_decreases nh s : scope2 s -> finished2 s = false ->
+  scope2 (step2 adj nh s) /\ (S (mu2 (step2 adj nh s)) <= mu2 s)%nat.
+Proof.
+  intros [St Sc] F. unfold step2, mu2. destruct (v_cur s) as [[ii [|jj rest]]|] eqn:C.
+  - split; [split; cbn [v_todo v_cur v_anh]; [auto|intros; discriminate]|]. cbn [v_anh v_todo v_cur curw2 length]. lia.
+  - destruct (Sc ii (jj :: rest) eq_refl) as [Aii Sr].
+    assert (Jn : In jj nodes) by (apply Sr; left; auto).
+    destruct (negb (getb nh jj) && (getz (v_anh s) jj =? 0)) eqn:Cond.
+    + apply andb_prop in Cond as [_ Ajj]. apply Z.eqb_eq in Ajj. cbn [v_anh v_todo v_cur]. split.
+      * split; cbn [v_anh v_todo v_cur].
+        -- intros v [<-|Hv]; [split; [auto|rewrite getz_set_same; auto]|]. destruct (St v Hv) as [A B]. split; [auto|].
+           destruct (Z.eq_dec v jj) as [->|N]; [rewrite getz_set_same; auto|rewrite getz_set_other; auto].
+        -- intros i0 r0 E. inversion E; subst i0 r0. split.
+           ++ destruct (Z.eq_dec ii jj) as [->|N]; [rewrite getz_set_same; auto|rewrite getz_set_other; auto].
+           ++ intros x Hx. apply Sr; right; auto.
+      * pose proof (sumw_label nodes (v_anh s) jj (getz (v_anh s) ii) Hnd Jn Ajj Aii) as M. unfold unlabelled.
+        rewrite sumw_cons. cbn [curw2 length]. lia.
+    + cbn [v_anh v_todo v_cur]. split; [|cbn [curw2 length]; lia]. split; cbn [v_anh v_todo v_cur]; [auto|].
+      intros i0 r0 E. inversion E; subst i0 r0. split; [auto|]. intros x Hx. apply Sr; right; auto.
+  - destruct (v_todo s) as [|ii t] eqn:T.
+    + unfold finished2 in F. rewrite C, T in F. discriminate.
+    + cbn [v_anh v_todo v_cur curw2]. destruct (St ii (or_introl eq_refl)) as [Ni Ai]. split.
+      * split; cbn [v_anh v_todo v_cur]; [intros v Hv; apply St; right; auto|].
+        intros i0 r0 E. inversion E; subst. split; [auto|]. intros x Hx. apply (Hclosed i0); auto.
+      * rewrite sumw_cons. unfold wt. lia.
+Qed.
+
+Lemma run2_finishes nh fuel : forall s, scope2 s -> (mu2 s <= fuel)%nat -> finished2 (run2 adj fuel nh s) = true.
+Proof.
+  induction fuel as [|f IH]; intros s Sc Hm; cbn [run2]; destruct (finished2 s) eqn:F; auto.
+  - destruct (step2_decreases nh s Sc F) as [_ D]. lia.
+  - destruct (step2_decreases nh s Sc F) as [Sc' D]. apply IH; [auto|lia].
+Qed.
+
+Theorem walk2_terminates nh anh0 (n : nat) fuel : (forall v, In v (zseq 0 n) -> In v nodes) ->
+  (sumw nodes <= fuel)%nat -> finished2 (run2 adj fuel nh (init2 n nh anh0)) = true.
+Proof.
+  intros Hn Hf. apply run2_finishes.
+  - unfold init2. rewrite frev_rev. split; cbn [v_anh v_todo v_cur]; [|intros; discriminate].
+    intros v Hv. apply in_rev in Hv. apply filter_In in Hv as [Hv Cv]. split; [apply Hn; auto|].
+    apply andb_prop in Cv as [_ Cv]. apply negb_true_iff in Cv. apply Z.eqb_neq in Cv. exact Cv.
+  - unfold mu2, init2. rewrite frev_rev. cbn [v_anh v_todo v_cur curw2].
+    pose proof (sumw_partition (fun v => getz anh0 v =? 0) nodes) as P. fold (unlabelled anh0) in P.
+    assert (L : (sumw (rev (filter (fun jj => negb (getb nh jj) && negb (getz anh0 jj =? 0)%Z) (zseq 0 n))) <=
+                 sumw (filter (fun v => negb (getz anh0 v =? 0)%Z) nodes))%nat).
+    { apply sumw_incl.
+      - apply NoDup_rev, NoDup_filter. clear. generalize 0. induction n as [|k IH]; intros lo; cbn [zseq]; constructor.
+        + intros Hin. apply zseq_In in Hin. lia.
+        + apply IH.
+      - intros v Hv. apply in_rev in Hv. apply filter_In in Hv as [Hv Cv]. apply filter_In. split; [apply Hn; auto|].
+        apply andb_prop in Cv as [_ Cv]. exact Cv. }
     lia.
 Qed.
 
